@@ -500,3 +500,35 @@ Proof.
 Qed.
 
 End DriverR.
+
+(* any two chunk sizes and any two positive budget vectors give the same import *)
+Theorem read_file_chunk_independent_any hdr rows file crs1 crs2 ncols offs1 offs2 index_map fuel1 fuel2 :
+  0 < ncols -> len hdr = ncols -> Forall (fun rw : list cell => len rw = ncols) rows ->
+  (file = render_file (hdr :: rows) \/
+   (file ++ [NL] = render_file (hdr :: rows) /\ file <> [] /\ last file NL <> NL)) ->
+  (forall r, In r (hdr :: rows) -> len (render_row r) <= crs1 * 2 * ncols) ->
+  (forall r, In r (hdr :: rows) -> len (render_row r) <= crs2 * 2 * ncols) ->
+  okoffs ncols offs1 -> okoffs ncols offs2 ->
+  Forall (fun c => 0 <= c < ncols) index_map ->
+  (2 * length rows + 2 * Z.to_nat (mu ncols rows offs1) + 4 <= fuel1)%nat ->
+  (2 * length rows + 2 * Z.to_nat (mu ncols rows offs2) + 4 <= fuel2)%nat ->
+  exists d1 d2, read_file fuel1 file crs1 ncols offs1 index_map = Ok d1 /\
+                read_file fuel2 file crs2 ncols offs2 index_map = Ok d2 /\
+                d_acc d1 = d_acc d2 /\
+                map (fun m => (i_indices m, i_values m)) (d_imps d1) = map (fun m => (i_indices m, i_values m)) (d_imps d2).
+Proof.
+  intros Hn Hh Hr Hf Hw1 Hw2 Ho1 Ho2 Him Hf1 Hf2.
+  destruct (read_file_regrow hdr rows file crs1 ncols index_map Hn Hh Hr Hf Hw1 Him offs1 fuel1 Ho1 Hf1) as (d1 & E1 & A1 & C1).
+  destruct (read_file_regrow hdr rows file crs2 ncols index_map Hn Hh Hr Hf Hw2 Him offs2 fuel2 Ho2 Hf2) as (d2 & E2 & A2 & C2).
+  exists d1, d2. repeat split; try assumption; congruence.
+Qed.
+
+(* budgets above the column totals need no doubling *)
+Lemma mu_zero ncols rows o : 0 <= ncols ->
+  (forall c, 0 <= c < ncols -> nthZ o c + len (CB rows c) < nthZ o (c + 1)) -> mu ncols rows o = 0.
+Proof.
+  intros Hn H. unfold mu. assert (G : forall n, (n <= Z.to_nat ncols)%nat -> mu_n rows o n = 0).
+  { induction n as [|n IH]; intros Hle; [reflexivity|]. cbn [mu_n]. rewrite IH by lia.
+    specialize (H (Z.of_nat n) ltac:(lia)). unfold bud. lia. }
+  apply G. lia.
+Qed.
